@@ -11,8 +11,12 @@ def sh(cmd, cwd, env=None, timeout=1200):
     r = subprocess.run(cmd, cwd=cwd, env=env, capture_output=True, text=True, timeout=timeout)
     return r.returncode, r.stdout + r.stderr
 
+BASE = os.environ.get("SEED_BASE", "/tmp/wt")
+OFFSET = int(os.environ.get("SEED_OFFSET", "0"))
+
+
 def one(pid, j):
-    src = f"/tmp/wt/{pid}/seed"
+    src = f"{BASE}/{pid}/seed"
     patch = f"{src}/patch{j}.diff"
     if not os.path.exists(patch):
         return pid, j, {"ok": False, "why": "no patch"}
@@ -21,7 +25,7 @@ def one(pid, j):
     try:
         subprocess.check_call(["rsync", "-a", "--exclude", ".git", "--exclude", "__pycache__", "/repo/", d + "/"])
         shutil.copytree(src, d + "/seed")
-        demo = open(f"{d}/seed/demo{j}.py").read().replace(f"/tmp/wt/{pid}", d)
+        demo = open(f"{d}/seed/demo{j}.py").read().replace(f"{BASE}/{pid}", d)
         open(f"{d}/seed/demo{j}.py", "w").write(demo)
         env = dict(os.environ, PYTHONPATH=d + "/src")
         rc0, out0 = sh(["/venv/bin/python", f"seed/demo{j}.py"], d, env)
@@ -40,7 +44,7 @@ def one(pid, j):
         res["tests_tail"] = outt.strip().splitlines()[-1:]
         res["tests_ok"] = failed <= KNOWN and "passed" in outt
         res["ok"] = bool(res["patch_applies"] and res["only_src"] and rc0 == 0 and rc1 != 0 and res["tests_ok"])
-        out_dir = os.path.join(VERIF, "seeded", f"{pid}-{j}")
+        out_dir = os.path.join(VERIF, "seeded", f"{pid}-{j + OFFSET}")
         if res["ok"]:
             os.makedirs(out_dir, exist_ok=True)
             shutil.copy(patch, out_dir + "/patch.diff")
